@@ -8,4 +8,5 @@ INVARIANT PrefixOfSet
 INVARIANT PeekIsNextPop
 INVARIANT EndsRight
 INVARIANT NeverTooMany
+INVARIANT SerialiseOk
 CHECK_DEADLOCK FALSE
